@@ -59,6 +59,12 @@ type cursorTokenData struct {
 	CreatedAt int64
 	CallID    string // the call token this cursor belongs to
 	State     interface{}
+	// Method is the stream method that minted this cursor. The continuation
+	// route must name the same method: nothing else in either token says
+	// which method's state this is, and a state must never be resumed by a
+	// method that did not create it. Empty on cursors sealed without a
+	// method (packCursorToken), which no route accepts.
+	Method string
 }
 
 // resolvedCall is what an authenticated CallID resolves to — either from the
@@ -458,12 +464,31 @@ func (h *HttpServer) packCallToken(callID string, outputSchema *arrow.Schema, au
 // packCursorToken seals the advancing half. Re-minted every turn; this is
 // the only token a response returns.
 func (h *HttpServer) packCursorToken(callID string, state interface{}, auth *AuthContext) ([]byte, error) {
+	return h.packCursorTokenFor("", callID, state, auth)
+}
+
+// packCursorTokenFor is packCursorToken with the minting stream method bound
+// into the sealed payload; see checkCursorMethod.
+func (h *HttpServer) packCursorTokenFor(method, callID string, state interface{}, auth *AuthContext) ([]byte, error) {
 	data := cursorTokenData{
 		CreatedAt: time.Now().Unix(),
 		CallID:    callID,
 		State:     state,
+		Method:    method,
 	}
 	return h.sealToken(cursorTokenVersion, &data, stateTokenAad(auth))
+}
+
+// checkCursorMethod refuses an authenticated cursor presented at a route
+// other than the one whose method minted it. Without this a cursor from one
+// stream method resumes under any other: the foreign state is run by the
+// wrong method when it happens to satisfy the same interface, and fails an
+// unchecked type assertion (a panic out of ServeHTTP) when it does not.
+func checkCursorMethod(cursor *cursorTokenData, method string) error {
+	if cursor.Method != method {
+		return &RpcError{Type: "RuntimeError", Message: "State token was not issued for this method"}
+	}
+	return nil
 }
 
 // openCursorToken authenticates a cursor and returns its contents.
